@@ -826,7 +826,13 @@ def run_eval_op(g, op):
                 r = ["ok", enc(json.loads(obj.fingerprint(o)))]
             elif name == "set_get":
                 new = obj.set(o, dec(op["v"]))
-                r = ["ok", enc([new, obj.evaluate(new)])]
+                got = obj.evaluate(new)
+                if "v2" in op:
+                    snap = enc(new)
+                    obj.set(o, dec(op["v2"]))
+                    r = ["ok", [snap, enc(got), enc(o), enc(new) == snap]]
+                else:
+                    r = ["ok", enc([new, got])]
             else:
                 r = ["ok", enc(obj.transform(dec(op["x"]), o))]
         except RecursionError:
